@@ -4,11 +4,14 @@ from pyvc.contracts import contract
 R = "paranoid_crypto/lib/randomness_tests/rng.py"
 P = {"n": "int", "seed": "Optional[int]"}
 FITS = [("C20", "0 <= result and result < pow2(n)")]
+# with a non-zero seed no fresh randomness is drawn: the result is a function of (generator, n, seed)
+PURE = [("C20", "implies(seed is not None and seed != 0, not used_urandom())")]
 
 
 def rng(cls, self_fields=None, requires=(), loops=None, return_hints=(), ensures=None, extra=None):
   ns = dict(params=dict(P), returns="int", self_fields=dict(self_fields or {}), requires=["n >= 1"] + list(requires),
-            ensures=list(FITS if ensures is None else ensures), loops=dict(loops or {}),
+            ensures=list(FITS if ensures is None else ensures) + (list(PURE) if cls not in ("Urandom", "SubsetSum") else []),
+            loops=dict(loops or {}),
             return_hints=list(return_hints), props=["C20"])
   if extra:
     ns.update(extra)
